@@ -119,6 +119,15 @@ def main():
                     h["id"] = "bounce-fault-%s-%s-%d" % (call, obj, k)
                     h["strict"] = 0
                     hists.append(h)
+        # a write to the bounce record that comes up short (each of the first writes in turn; 1 byte, half a line): the record still
+        # holds exactly one paragraph per failed recipient
+        for k in range(1, 6 if thorough else 4):
+            for what in ("short 1", "short 9", "short 40"):
+                h = gen_bounce_history(ck.rng, 1300 + len(hists), thorough, kind="default")
+                h["fault"] = {"role": "qmail-send", "call": "write", "k": k, "what": what, "obj": "bounce"}
+                h["id"] = "bounce-shortwrite-%d-%s" % (k, what.split()[1])
+                h["strict"] = 0
+                hists.append(h)
     runs = qsengine.run_histories(ck, tree, hists)
     bad, vres = qsengine.judge(ck, runs)
     ck.add_tlc("QSendTrace", vres)
